@@ -10,7 +10,7 @@ git -C /repo worktree add --detach $wt HEAD -q || exit 2
 demo=$(ls $src/demo*.py | head -1)
 PYTHONPATH=$wt/src /venv/bin/python $demo >/dev/null 2>&1; c=$?
 git -C $wt apply "$patch" 2>/dev/null || git -C $wt apply -3 "$patch" 2>/dev/null || { echo "$id: PATCH DOES NOT APPLY"; git -C /repo worktree remove --force $wt; exit 2; }
-git -C $wt diff > /tmp/confirm_$$.diff
+git -C $wt diff HEAD > /tmp/confirm_$$.diff
 tests=$(cd $wt && PYTHONPATH=$wt/src /venv/bin/python -m pytest -q -p no:cacheprovider --timeout=900 --continue-on-collection-errors 2>&1 | tail -1)
 PYTHONPATH=$wt/src /venv/bin/python $demo >/dev/null 2>&1; b=$?
 git -C /repo worktree remove --force $wt
